@@ -3,7 +3,7 @@ import os, subprocess, json, re, sys, collections, shutil
 from common import *
 
 NZ_RE = re.compile(r'8000000000000000')
-EXPECT_THEOREMS = 24
+EXPECT_THEOREMS = 25
 
 
 def nz(l):
@@ -73,7 +73,8 @@ def classify_codec_mismatch(xh, printed, yh):
         mid, ulp = (x + y) / 2, abs(y - x)
         beyond = (t - mid) if y > x else (mid - t)       # >= 0: on y's side of the boundary
         if 0 <= beyond <= ulp / 64:
-            return 'codec:boundary-tie-round-trip'
+            # the known defect is at the UPPER boundary (|y| > |x|); the same thing at the lower boundary is a different defect
+            return 'codec:boundary-tie-round-trip' if abs(y) > abs(x) else 'codec:lower-boundary-tie-round-trip'
     except Exception:
         pass
     return 'codec:g_fmt-strtod-not-exact'
